@@ -14,7 +14,11 @@ import (
 	"verifharness/wire"
 )
 
-func init() { register("c19", checkC19) }
+// The check runs in a child process (xfInChild): the server sections start real servers inside the process, and a fatal
+// error or a panic in a goroutine of the package must be an observation, not the end of the harness.
+func init() {
+	register("c19", func(c *lib.Ctx) { xfInChild(c, "c19", checkC19) })
+}
 
 type c19Case struct {
 	Kind string `json:"kind"`
@@ -86,7 +90,7 @@ func c19TryClient(reply []byte, eofAfter bool, probes []string) (ok bool, exts m
 
 func checkC19(c *lib.Ctx) {
 	r := c.R
-	r.Rule = "client: handshake replies with versions {0..5, 2^31, 2^32-1} x extension lists, every truncation of a valid VERSION reply, every other type byte, PRNG bodies: construction succeeds iff type=2, version=3 and the extension list parses, and HasExtension answers (data of the last pair of that name, true) resp. (\"\", false) for every probed name (every advertised name, each with one byte flipped at the first/middle/last position, every prefix and suffix, one byte more, doubled, other case, the empty string, every pair's data, the well-known names), the client's answers (not the harness codec's) being compared with the map of driver op c19.recv; client report (c19_report.go): well-formed version-3 VERSION replies whose pairs range over 0 / 1 pair (31 names: empty, realistic, NUL, blank, '=', ',', non-UTF-8, 255..65536 bytes x 16 data: empty, digits, blank, NUL, non-UTF-8, a name, 300 and 70000 bytes, the name itself), 2 pairs (same name twice with data over {empty,1,2}^2; two names in both orders with an empty datum on either side; data naming the other pair / no pair), 3 pairs with a name twice or thrice in every position x {empty,1,2}^3, every order of a 4-list (5 thorough) with an empty datum, a repeated name and a datum naming a pair, 2..1000 pairs with the empty datum first / middle / last / everywhere / nowhere and with repeated names, the largest packet the client takes (256 KiB, long name / long data), 26 fsync@openssh.com lists and 400 (20000 thorough) PRNG lists over a small name pool (repeats) and random bytes; every list is given to a REAL client (peers.NewClient), every probe asked twice (answers must not change), File.Sync on the fsync lists and an eighth of the PRNG lists must put exactly one fsync@openssh.com request on the wire iff the last advertised fsync@openssh.com pair has data \"1\" and otherwise fail with OP_UNSUPPORTED sending nothing; failing lists are shrunk pair by pair; non-trivial = at least one pair; server: every ordered subset of the supported extensions (plus lists with repetitions; invalid names from four prior lists) through SetSFTPExtensions x BOTH servers under EVERY subset of their options (os: ReadOnly, WithAllocator, WithServerWorkingDirectory, WithMaxTxPacket, WithDebug = 32 variants; request server: WithRSAllocator, WithStartDirectory, WithRSMaxTxPacket = 8 option sets x 4 FileCmd handlers implementing a subset of {PosixRenameFileCmder, StatVFSFileCmder} and recording the method reached (quick: one handler per option set, rotating with the configuration)) x INIT variants (versions, client extension pairs): VERSION carries exactly the configured list; per session extended requests with every supported name (configured or not; absolute and relative paths; results checked on the tree; on a read-only server the mutating ones must be PERMISSION_DENIED and change nothing), ~110 unserved names (empty, other OpenSSH names, supported names in other case / without or with another domain / with NUL, blank, newline, one byte more or less, non-UTF-8, 255..65536 bytes (200000 thorough)) and PRNG names (random bytes, one-byte mutations of supported names) with rotating argument shapes (none, path, two paths, handle, random bytes, cut string): each must be answered STATUS OP_UNSUPPORTED with the request id, create nothing, and a following STAT must be answered; a pipelined batch per session (replies in order); requests that do not decode (id/name/argument cut or over-long, one session each) must end the session or be refused, never served; EVERY extended request sent (serial, pipelined, malformed body) is also mapped to the outcome classes of the Lean model M-ExtDispatch (served:<operation reached> | unsupported | denied | bad | ends) and compared with driver op c19.ext <os|rs+ifaces> <readOnly> <name> <bodyOk>, identical questions asked once; non-trivial = everything but a supported name with valid arguments; quick rotates a third of the fixed unserved names and a quarter of the malformed requests per (configuration, variant) except every fourth configuration"
+	r.Rule = "client: handshake replies with versions {0..5, 2^31, 2^32-1} x extension lists, every truncation of a valid VERSION reply, every other type byte, PRNG bodies: construction succeeds iff type=2, version=3 and the extension list parses, and HasExtension answers (data of the last pair of that name, true) resp. (\"\", false) for every probed name (every advertised name, each with one byte flipped at the first/middle/last position, every prefix and suffix, one byte more, doubled, other case, the empty string, every pair's data, the well-known names), the client's answers (not the harness codec's) being compared with the map of driver op c19.recv; client report (c19_report.go): well-formed version-3 VERSION replies whose pairs range over 0 / 1 pair (31 names: empty, realistic, NUL, blank, '=', ',', non-UTF-8, 255..65536 bytes x 16 data: empty, digits, blank, NUL, non-UTF-8, a name, 300 and 70000 bytes, the name itself), 2 pairs (same name twice with data over {empty,1,2}^2; two names in both orders with an empty datum on either side; data naming the other pair / no pair), 3 pairs with a name twice or thrice in every position x {empty,1,2}^3, every order of a 4-list (5 thorough) with an empty datum, a repeated name and a datum naming a pair, 2..1000 pairs with the empty datum first / middle / last / everywhere / nowhere and with repeated names, the largest packet the client takes (256 KiB, long name / long data), 26 fsync@openssh.com lists and 400 (20000 thorough) PRNG lists over a small name pool (repeats) and random bytes; every list is given to a REAL client (peers.NewClient), every probe asked twice (answers must not change), File.Sync on the fsync lists and an eighth of the PRNG lists must put exactly one fsync@openssh.com request on the wire iff the last advertised fsync@openssh.com pair has data \"1\" and otherwise fail with OP_UNSUPPORTED sending nothing; failing lists are shrunk pair by pair; non-trivial = at least one pair; server: every ordered subset of the supported extensions (plus lists with repetitions; invalid names from four prior lists) through SetSFTPExtensions x BOTH servers under EVERY subset of their options (os: ReadOnly, WithAllocator, WithServerWorkingDirectory, WithMaxTxPacket, WithDebug = 32 variants; request server: WithRSAllocator, WithStartDirectory, WithRSMaxTxPacket = 8 option sets x 4 FileCmd handlers implementing a subset of {PosixRenameFileCmder, StatVFSFileCmder} and recording the method reached (quick: one handler per option set, rotating with the configuration)) x INIT variants (versions, client extension pairs): VERSION carries exactly the configured list; per session extended requests with every supported name (configured or not; absolute and relative paths; results checked on the tree; on a read-only server the mutating ones must be PERMISSION_DENIED and change nothing), ~110 unserved names (empty, other OpenSSH names, supported names in other case / without or with another domain / with NUL, blank, newline, one byte more or less, non-UTF-8, 255..65536 bytes (200000 thorough)) and PRNG names (random bytes, one-byte mutations of supported names) with rotating argument shapes (none, path, two paths, handle, random bytes, cut string): each must be answered STATUS OP_UNSUPPORTED with the request id, create nothing, and a following STAT must be answered; a pipelined batch per session (replies in order); requests that do not decode (id/name/argument cut or over-long, one session each) must end the session or be refused, never served; EVERY extended request sent (serial, pipelined, malformed body) is also mapped to the outcome classes of the Lean model M-ExtDispatch (served:<operation reached> | unsupported | denied | bad | ends) and compared with driver op c19.ext <os|rs+ifaces> <readOnly> <name> <bodyOk>, identical questions asked once; non-trivial = everything but a supported name with valid arguments; quick rotates a third of the fixed unserved names and a quarter of the malformed requests per (configuration, variant) except every fourth configuration; sessions (c19_sess.go): plans of 2..8 servers of both kinds (random option subsets, handlers, INIT variants, a random ordered subset of the supported extensions configured) served by ONE child process with GOMAXPROCS >= 4 — concurrently (quick: 6 plans of 2, 3, 4, 6, 8 and 2..8 sessions, ~600 requests per session; thorough: 63 plans, three times the names), the handshakes and the steps of the sessions released together, every session sending a shuffled schedule of steps: names new to the process (own tag per session; one step with the SAME new names in all sessions), each third step sent twice, names of 255..65536 bytes, PRNG names (random bytes, supported names with a byte flipped / dropped / inserted / swapped), the fixed unserved names, supported names with valid arguments, requests that do not decode (the session is opened again beside the others), serially or pipelined in batches of 16 / 64, the last session of a plan being a copy of the first — and sequentially (quick 2, thorough 8 plans: an os and a request-server script served three times each by sessions opened one after the other); every request is judged as in the server section, sessions with the same script must get the same answers, and the process must survive (a death is reported with the first lines the runtime printed); failing plans are shrunk by re-running (sessions, kinds of steps, counts); non-trivial = all"
 	// ---- client side ----
 	var lines, impl []string
 	versions := []uint32{0, 1, 2, 3, 4, 5, 1 << 31, 0xffffffff}
@@ -167,6 +171,11 @@ func checkC19(c *lib.Ctx) {
 		// one recorded case: a server-side case (sect "ext") or a handshake reply given to the client
 		var ext c19ExtCase
 		var one c19Case
+		var sc c19SessCase
+		if err := lib.ReadReplay(c.Replay, &sc); err == nil && sc.Sect == "sessions" {
+			c19Sessions(c, &sc)
+			return
+		}
 		if err := lib.ReadReplay(c.Replay, &ext); err == nil && ext.Sect == "ext" {
 			root, err := lib.MkScratch("vh-c19-")
 			if err != nil {
@@ -282,6 +291,9 @@ func checkC19(c *lib.Ctx) {
 	// ---- client side: what HasExtension reports (c19_report.go) ----
 	c19ClientReport(c, nil)
 
+	// ---- several sessions served by one process, in child processes (c19_sess.go) ----
+	procDied := c19Sessions(c, nil)
+
 	// ---- server side (c19_srv.go) ----
 	root, err := lib.MkScratch("vh-c19-")
 	if err != nil {
@@ -289,7 +301,7 @@ func checkC19(c *lib.Ctx) {
 		return
 	}
 	defer os.RemoveAll(root)
-	c19Server(c, root)
+	c19Server(c, root, !procDied)
 	r.Sample(map[string]any{"handshake_reply": lib.Hex(valid), "accepted": true})
 	r.Sample(map[string]any{"sect": "report", "pairs": [][2]string{{"copy-file", ""}, {"a@b", "1"}, {"a@b", ""}}, "HasExtension": map[string]string{"copy-file": `("", true)`, "a@b": `("", true)`, "a@c": `("", false)`, "": `("", false)`}})
 }
